@@ -122,6 +122,46 @@ def run(idx: Index, rep: Report, tier: str) -> None:
                         if isinstance(st, ast.Assign) and isinstance(st.targets[0], ast.Name) and any(x is calls[0] for x in ast.walk(st.value)):
                             bound_names[want_bound].add(st.targets[0].id)
                 rep.check(ok, rule2, f"duration constraint: {pred}()=={outcome} -> {want_op}(duration, duration.{want_bound})", val.loc(calls[0] if calls else n), construct=norm(calls[0]) if calls else "no comparison built", detail="" if ok else f"an action duration on the {'open' if outcome else 'closed'} {want_bound} bound is compared with the wrong strictness/bound", function=val.qualname)
+    # the conditional-expression forms: `c = em.GT(d, I.lower) if I.is_left_open() else em.GE(d, I.lower)` and
+    # `op = em.GT if I.is_left_open() else em.GE; c = op(d, I.lower)`
+    OPS = ("GT", "GE", "LT", "LE")
+    if seen < 4:
+        host = val if host is val else host
+        for m in [host] + [m for m in methods if m is not host]:
+            found_here = 0
+            mcfg = cfg_of(m)
+            mdu = _DU(mcfg)
+            for st in walk_no_nested(m.node):
+                if not (isinstance(st, ast.Assign) and isinstance(st.targets[0], ast.Name) and isinstance(st.value, ast.IfExp)):
+                    continue
+                ie = st.value
+                if not (isinstance(ie.test, ast.Call) and call_name(ie.test) in ("is_left_open", "is_right_open") and isinstance(ie.test.func, ast.Attribute) and _from_duration(ie.test.func.value, mcfg, mdu)):
+                    continue
+                pred = call_name(ie.test)
+                for outcome, e in ((True, ie.body), (False, ie.orelse)):
+                    want_op, want_bound = table[(pred, outcome)]
+                    op = args = None
+                    result_name = st.targets[0].id
+                    if isinstance(e, ast.Call) and call_name(e) in OPS:
+                        op, args = call_name(e), e.args
+                    elif isinstance(e, (ast.Attribute, ast.Name)) and (e.attr if isinstance(e, ast.Attribute) else e.id) in OPS:
+                        uses = [c for c in walk_no_nested(m.node) if isinstance(c, ast.Call) and isinstance(c.func, ast.Name) and c.func.id == st.targets[0].id]
+                        stores = [x for x in walk_no_nested(m.node) if isinstance(x, ast.Name) and isinstance(x.ctx, ast.Store) and x.id == st.targets[0].id]
+                        if len(uses) == 1 and len(stores) == 1:
+                            op, args = (e.attr if isinstance(e, ast.Attribute) else e.id), uses[0].args
+                            for st2 in walk_no_nested(m.node):
+                                if isinstance(st2, ast.Assign) and isinstance(st2.targets[0], ast.Name) and st2.value is uses[0]:
+                                    result_name = st2.targets[0].id
+                    ok = op == want_op and args is not None and len(args) == 2 and isinstance(args[0], ast.Name) and isinstance(args[1], ast.Attribute) and args[1].attr == want_bound and _from_duration(args[1].value, mcfg, mdu)
+                    seen += 1
+                    found_here += 1
+                    if ok:
+                        first_args.add(args[0].id)
+                        bound_names[want_bound].add(result_name)
+                    rep.check(ok, rule2, f"duration constraint: {pred}()=={outcome} -> {want_op}(duration, duration.{want_bound})", m.loc(st), construct=norm(st)[:120], detail="" if ok else f"an action duration on the {'open' if outcome else 'closed'} {want_bound} bound is compared with the wrong strictness/bound", function=val.qualname)
+            if found_here:
+                host = m
+                break
     if seen < 4:
         raise AnalysisError(f"{rule2}: found {seen} of the 4 openness branches in {host.name} (anchor vanished)")
     # the two constraints are conjoined and registered as a condition of the action instance
